@@ -33,7 +33,7 @@ def pz(p):
 
 SRC = b'/src'
 NAMES_VALID = [b'x', b'y', b'x', b'z', b'x', b'y']
-NAMES_HOSTILE = [b'x', b'y', b'x', b'.', b'..', b'a/b', b'', b'z']
+NAMES_HOSTILE = [b'x', b'y', b'x', b'.', b'..', b'a/b', b'', b'z', b'../esc', b'x', b'y']
 NAMES_GLOB = [b'x', b'y', b'x', b'z', b'a/b', b'', b'foo/..', b'q/.', b'../x', b'.', b'..']
 
 
@@ -363,7 +363,8 @@ def make_server_class(env):
             except (OSError, asyncssh.SFTPError):
                 rec.add('isdir', path, False, t)
                 raise
-            rec.add('isdir', path, r.type == D, t)
+            import stat as st_
+            rec.add('isdir', path, st_.S_ISDIR(r.st_mode) if hasattr(r, 'st_mode') else r.type == D, t)
             return r
 
         def mkdir(self, path, attrs_):
@@ -535,7 +536,7 @@ async def run_case(env, sftp, case, k):
         unexpected = repr(errors[0])
     after = snapshot(env.base)
     dst_s = os.fsdecode(dst_real)
-    skip = {work, os.path.join(env.remote_root.decode(), 'w%d' % k) if remote_dst else work}
+    skip = {work, os.path.join(env.remote_root.decode(), 'w%d' % k)}
     changed = sorted(p for p in set(before) | set(after) if before.get(p) != after.get(p))
     outside = [(p, describe_change(before, after, p)) for p in changed
                if not (p == dst_s or p.startswith(dst_s + '/')) and p not in skip]
@@ -548,7 +549,10 @@ async def run_case(env, sftp, case, k):
 
 def case_coq(case, out, delivered):
     spec = case['spec']
-    srcs = clist(case['tops'], lambda e: '(%s, %s)' % (zl(e[0]), node_coq(spec, e[1], e[2], delivered)))
+    if case.get('tops_lit') is not None:
+        srcs = case['tops_lit']
+    else:
+        srcs = clist(case['tops'], lambda e: '(%s, %s)' % (zl(e[0]), node_coq(spec, e[1], e[2], delivered)))
     return '((%s, %s, %s, %s), %s, %s, %s, %s, %s, %s, %s)' % (
         cbool(case['preserve']), cbool(case['recurse']), cbool(case['follow']), cbool(case['handler']),
         pz(out['dst']), copt(case['glob'], zl), srcs,
@@ -575,6 +579,20 @@ def gen_case(rng, env, k):
         # one named directory
         case['api'] = 'get'
         gen_dir(rng, spec, top, 0, names, env.outside, errs)
+        if hostile and rng.random() < 0.3:
+            # an entry that would leave the destination if a name filter were missing
+            entries, ok = spec.listing[top]
+            name, t = rng.choice([(b'..', 'D'), (b'../esc', 'F'), (env.outside.encode() + b'/escA', 'F'), (b'../esc', 'D')])
+            cp = posixpath.join(top, name)
+            if cp not in spec.ltype:
+                spec.ltype[cp] = t
+                spec.target[cp], spec.stat_t[cp], spec.open_ok[cp], spec.rd_ok[cp] = b'x', 'D' if t == 'D' else 'F', True, True
+                if t == 'D':
+                    spec.listing[cp] = ([(b'escC', 'F')], True)
+                    c2 = posixpath.join(cp, b'escC')
+                    spec.ltype[c2], spec.target[c2], spec.stat_t[c2], spec.open_ok[c2], spec.rd_ok[c2] = 'F', b'x', 'F', True, True
+                entries.insert(rng.randint(0, len(entries)), (name, t))
+                case['dst_state'] = 'absent'
         case['srcpaths'] = top
         case['tops'] = [(posixpath.basename(top), top, 'D')]
     elif r < 0.75:
@@ -605,6 +623,74 @@ def gen_case(rng, env, k):
     return case
 
 
+def build_local_tree(rng, root, outside, depth=0):
+    """a real local source tree for put(): directories, files and symbolic links (targets: siblings that may or may
+    may not exist, the outside directory / file, a dangling path); never a link to an ancestor"""
+    os.mkdir(root)
+    used = set()
+    for _ in range(rng.randint(1, 4) if depth == 0 else rng.randint(0, 4)):
+        name = rng.choice([b'x', b'y', b'z', b'w'])
+        if name in used:
+            continue
+        used.add(name)
+        p = os.path.join(root, name)
+        t = rng.choice('FFLLD' if depth < 2 else 'FFL')
+        if t == 'F':
+            with open(p, 'wb') as f:
+                f.write(b'data')
+        elif t == 'D':
+            build_local_tree(rng, p, outside, depth + 1)
+        else:
+            os.symlink(rng.choice([b'x', b'y', b'z', b'w', b'nothing', outside.encode() + b'/dir',
+                                   outside.encode() + b'/victim', b'y/x']), p)
+
+
+def local_node_coq(path, follow):
+    """Coq literal of what LocalFS presents for path (listing order = os.scandir order)"""
+    import stat as st_
+    lst = os.lstat(path)
+    if st_.S_ISLNK(lst.st_mode):
+        try:
+            st = os.stat(path)
+            seen = local_dir_coq(path, follow) if st_.S_ISDIR(st.st_mode) else '(File true)'
+        except OSError:
+            seen = 'Broken'
+        return '(Link %s %s)' % (pz(os.readlink(path)), seen if follow else 'Broken')
+    if st_.S_ISDIR(lst.st_mode):
+        return local_dir_coq(path, follow)
+    return '(File true)'
+
+
+def local_dir_coq(path, follow):
+    with os.scandir(path) as it:
+        names = [e.name for e in it]
+    return '(Dir %s true)' % clist(names, lambda n: '(%s, %s)' % (zl(n), local_node_coq(os.path.join(path, n), follow)))
+
+
+def gen_remote_case(rng, env, k, api):
+    """copy (hostile virtual source -> real destination on the server) or put (real local tree -> server)"""
+    case = {'api': api, 'spec': Spec(), 'glob': None, 'top_dirs': [SRC],
+            'preserve': rng.random() < 0.5, 'recurse': rng.random() < 0.9, 'follow': rng.random() < 0.35,
+            'handler': rng.random() < 0.5, 'dst_state': rng.choice(DST_STATES)}
+    if api == 'copy':
+        top = SRC + b'/t%d' % k
+        case['top_dirs'].append(top)
+        hostile = rng.random() < 0.45
+        gen_dir(rng, case['spec'], top, 0, NAMES_HOSTILE if hostile else NAMES_VALID, env.outside, rng.random() < 0.3)
+        for key, v in list(case['spec'].target.items()):
+            if v == b'':
+                case['spec'].target[key] = b'z'          # a server rewrites an empty target
+        case['srcpaths'] = top
+        case['tops'] = [(posixpath.basename(top), top, 'D')]
+    else:
+        src = os.path.join(env.base, 'lsrc%d' % k).encode()
+        build_local_tree(rng, src, env.outside)
+        case['srcpaths'] = src
+        case['tops'] = [(posixpath.basename(src), src, 'D')]
+        case['tops_lit'] = '[(%s, %s)]' % (zl(posixpath.basename(src)), local_node_coq(src, case['follow']))
+    return case
+
+
 FIXED = [
     # (listing of the top directory, targets, stat answers, options)
     dict(top=[(b'x', 'L'), (b'x', 'D')], target={b'x': 'OUT/dir'}, sub={b'x': [(b'evil', 'F')]}),
@@ -616,6 +702,12 @@ FIXED = [
     dict(top=[(b'', 'D'), (b'.', 'D'), (b'..', 'D'), (b'a/b', 'F'), (b'z', 'F')], handler=True),
     dict(top=[(b'y', 'F'), (b'y', 'D'), (b'x', 'D'), (b'x', 'F'), (b'x', 'L')], handler=True, dst_state='populated'),
     dict(top=[(b'foo/..', 'D'), (b'x', 'F')], sub={b'foo/..': [(b'evilB', 'F')]}, glob=True, dst_state='empty'),
+    # names that would leave the destination if the '.'/'..' skip or the separator check were missing
+    dict(top=[(b'..', 'D'), (b'.', 'D')], sub={b'..': [(b'evilUp', 'F')], b'.': [(b'in', 'F')]}),
+    dict(top=[(b'y', 'D')], sub={b'y': [(b'..', 'D')], b'..': [(b'evilUp2', 'F')]}, dst_state='empty', handler=True),
+    dict(top=[(b'../evilS', 'F'), (b'x', 'F')], handler=True),
+    dict(top=[(b'OUT/evilA', 'F')]),
+    dict(top=[(b'y', 'D')], sub={b'y': [(b'../../../outside/evilR', 'F'), (b'../../sibling', 'F')]}, dst_state='empty'),
     dict(top=[(b'a/b', 'D'), (b'', 'D'), (b'x', 'L'), (b'q/x', 'D')], glob=True, target={b'x': 'OUT/dir'},
          sub={b'a/b': [(b'in', 'F')], b'q/x': [(b'evil', 'F')], b'': [(b'x', 'D')]}, dst_state='empty', handler=True),
 ]
@@ -627,6 +719,7 @@ def fixed_case(env, k, fx):
     ob = env.outside.encode()
 
     def fill(p, entries):
+        entries = [(n.replace(b'OUT', ob), t) for n, t in entries]
         spec.listing[p] = (list(entries), True)
         for n, t in entries:
             cp = posixpath.join(p, n)
@@ -647,7 +740,6 @@ def fixed_case(env, k, fx):
                     tops=[(n, posixpath.join(top, n), t) for n, t in fx['top']])
     else:
         case.update(api='get', srcpaths=top, tops=[(posixpath.basename(top), top, 'D')])
-    del ob
     return case
 
 
@@ -764,6 +856,8 @@ def stage_copy(ctx):
     n = 1200 if ctx.tier == 'thorough' else 150
     cases = [fixed_case(env, k, fx) for k, fx in enumerate(FIXED)]
     cases += [gen_case(rng, env, len(FIXED) + k) for k in range(n)]
+    n_remote = 240 if ctx.tier == 'thorough' else 40
+    cases += [gen_remote_case(rng, env, len(cases) + k, 'copy' if k % 2 == 0 else 'put') for k in range(n_remote)]
     env.tap.install()
     try:
         results = sshutil.run(session(ctx, env, cases, batch), timeout=1500)
@@ -832,6 +926,9 @@ def stage_copy(ctx):
 
 def replay_copy(rp):
     core.setup_paths()
+    if rp.get('api') == 'put':
+        print('a put() case uses a generated local tree that is not part of the replay; run ./check C13')
+        return 2
     env = make_env()
     spec = Spec.from_json(rp['spec'])
     if rp.get('outside'):        # absolute link targets pointed into the scratch directory of the recorded run
